@@ -25,6 +25,8 @@ def template_hashes(rep):
 
 
 def run(rep, kf, tier, seed):
+    import contracts.templates_a as ta
+    ta.union_fallthrough_obligation(rep, "C02")
     tasks = []
     pkgs = []
     for version in ("3.1.0", "3.0.3"):
